@@ -38,6 +38,10 @@ def configs(tier, seed):
             layouts.append((le, l, "dsb-first"))
             l = list(pk) + ["dsb", "foreign"]
             layouts.append((le, l, "dsb-last"))
+            l = ["dsb<idb"] + list(pk)
+            layouts.append((le, l, "dsb-before-idb"))
+            l = ["foreign<idb"] + list(pk)
+            layouts.append((le, l, "foreign-before-idb"))
     for le, l, nm in layouts:
         out.append({"harness": "reader", "name": "reader-%s-%s-%s" % ("le" if le else "be", l[-1] if nm == "plain" else [x for x in l if x in ("epb", "pb")][0], nm), "le": le, "layout": l})
     for nm, kind, k in (("ms", "dec", 3), ("us", "dec", 6), ("ns", "dec", 9), ("2^-10", "bin", 10), ("2^-20", "bin", 20)):
@@ -81,8 +85,11 @@ class FileModel:
         self.blocks, self.i, self.half = blocks, 0, False
 
     def seek(self, pos):
-        assert pos == 0
-        self.i, self.half = 0, False
+        # positions are block boundaries: (index of the next block, header already read)
+        self.i, self.half = (0, False) if pos == 0 else pos
+
+    def tell(self):
+        return (self.i, self.half)
 
     def read(self, n):
         if self.i >= len(self.blocks):
@@ -184,7 +191,7 @@ class Opt:
 
 def _run_reader(cfg):
     from tlv.sx import shims
-    from tlv.sx.core import ctx, sym_int, sym_not, sym_and, sym_or, SymInt
+    from tlv.sx.core import ctx, sym_int, sym_not, sym_and, sym_or, SymInt, sym_choice
     from tlv.sx.symfloat import SymFloat
     from tlv.harness.common import explore_cfg
     import tlexport.dpkt_dsb as dd
@@ -199,9 +206,21 @@ def _run_reader(cfg):
         dd.DecryptionSecretBlock, dd.DecryptionSecretBlockLE = DsbBE, DsbLE
         res = sym_int("if_tsresol", -128, 127)          # struct 'b': signed byte
         off = sym_int("if_tsoffset", -(1 << 31), (1 << 31) - 1)
-        blocks = [{"type": SHB}, {"type": IDB, "opts": [Opt(9, res), Opt(14, off)], "linktype": 1, "snaplen": 65535}]
+        idb = {"type": IDB, "opts": [Opt(9, res), Opt(14, off)], "linktype": 1, "snaplen": 65535}
+        blocks = [{"type": SHB}, idb]
         want = []
         for i, kind in enumerate(cfg["layout"]):
+            if kind.endswith("<idb"):
+                # a block between the section header and the interface description
+                if kind.startswith("dsb"):
+                    data = object()
+                    blocks.insert(1, {"type": DSB, "pkt_data": data})
+                    want.append(("dsb", None, None, data))
+                else:
+                    t = sym_int("foreign_type%d" % i, 0, (1 << 32) - 1)
+                    c.assume(sym_and(sym_not(t == EPB), sym_not(t == PB), sym_not(t == DSB), sym_not(t == IDB), sym_not(t == SHB)))
+                    blocks.insert(1, {"type": t, "len": sym_choice("foreign_len%d" % i, [12, 32])})
+                continue
             if kind in ("epb", "pb"):
                 hi, lo = sym_int("hi%d" % i, 0, (1 << 32) - 1), sym_int("lo%d" % i, 0, (1 << 32) - 1)
                 data = object()
@@ -214,7 +233,8 @@ def _run_reader(cfg):
             else:
                 t = sym_int("foreign_type%d" % i, 0, (1 << 32) - 1)
                 c.assume(sym_and(sym_not(t == EPB), sym_not(t == PB), sym_not(t == DSB)))
-                blocks.append({"type": t})
+                # total block length: 12 is the smallest legal block (empty body)
+                blocks.append({"type": t, "len": sym_choice("foreign_len%d" % i, [12, 32])})
         try:
             r = dd.Reader(FileModel(blocks))
             got = list(r)
@@ -501,8 +521,16 @@ def _replay_reader(cfg, inp):
         elif kind == "dsb":
             raw.append(pcapng.dsb(b"CLIENT_RANDOM aa bb\n", e))
             want.append((-1, b"CLIENT_RANDOM aa bb\n"))
+        elif kind == "dsb<idb":
+            raw.insert(1, pcapng.dsb(b"CLIENT_RANDOM cc dd\n", e))
+            want.append((-1, b"CLIENT_RANDOM cc dd\n"))
         else:
-            raw.append(pcapng.other_block(inp.get("foreign_type%d" % i, 5), b"\x00" * 8, e))
+            ln = [12, 32][inp.get("foreign_len%d" % i, 0)]
+            blk = pcapng.other_block(inp.get("foreign_type%d" % i, 5), b"\x00" * (ln - 12), e)
+            if kind == "foreign<idb":
+                raw.insert(1, blk)
+            else:
+                raw.append(blk)
     try:
         got = [(t, bytes(b)) for t, b in Reader(io.BytesIO(b"".join(raw)))]
     except Exception as ex:
